@@ -66,6 +66,34 @@ func loadsStatus(v ssa.Value, field *types.Var) bool {
 // settles computes, for fn, whether the fact "session.status is waiting, completed or failed" holds before each
 // return; settlesOnNil are callees known to return a nil error only with the fact established; alwaysSettle are
 // callees (closures) that establish it on every path.
+var settlesMemo = map[*ssa.Function]int{} // 0 unknown, 1 computing, 2 yes, 3 no
+
+// settlesAlways: every return of f is reached with the status stored as waiting/completed/failed.
+func settlesAlways(f *ssa.Function, field *types.Var, settlesOnNil map[*ssa.Function]bool, alwaysSettle map[*ssa.Function]bool) bool {
+	switch settlesMemo[f] {
+	case 1, 3:
+		return false
+	case 2:
+		return true
+	}
+	settlesMemo[f] = 1
+	ok := len(f.Blocks) > 0 && len(core.Returns(f)) > 0
+	if ok {
+		m := settledAnalysis(f, field, settlesOnNil, alwaysSettle)
+		for _, ret := range core.Returns(f) {
+			if !m.At(ret) {
+				ok = false
+			}
+		}
+	}
+	if ok {
+		settlesMemo[f] = 2
+	} else {
+		settlesMemo[f] = 3
+	}
+	return ok
+}
+
 func settledAnalysis(fn *ssa.Function, field *types.Var, settlesOnNil map[*ssa.Function]bool, alwaysSettle map[*ssa.Function]bool) *core.MustResult {
 	calleeOf := func(c *ssa.CallCommon) *ssa.Function {
 		if f := c.StaticCallee(); f != nil {
@@ -89,7 +117,9 @@ func settledAnalysis(fn *ssa.Function, field *types.Var, settlesOnNil map[*ssa.F
 			if f != nil && core.RelPkg(core.FuncPkgPath(f)) == "flows/engine" && f.Signature.Recv() != nil {
 				// another session method may change the status (visitNode sets waiting): unknown afterwards
 				if recvNamed(f) != nil && recvNamed(f).Obj().Name() == "session" && writesField(f, field) {
-					return false
+					// a helper that itself leaves the status settled on every path (e.g. the body of the fail-session
+					// closure moved into a method) settles it for the caller too
+					return settlesAlways(f, field, settlesOnNil, alwaysSettle)
 				}
 			}
 		}
